@@ -36,7 +36,7 @@ def run(ck):
     rng = ck.rng
     cases = []   # (type, hexbytes, family)
     two_types = ALL_TYPES if ck.tier == "thorough" else ["bool", "u16", "str", "seq(u8)", "seq(bool)", "seq(str)", "dict(u8,bool)", "bdict(str,i32)",
-                                                         "dict(bool,dict(u8,u8))", "varuint", "varint", "varint32", "varuint32", "skiptags", "genfile", "glevel", "gdiag", "reply", "seq(seq(u16))"]
+                                                         "dict(bool,dict(u8,u8))", "varuint", "varint", "varint32", "varuint32", "varint@u64", "varint@usize", "varint@u8", "varuint@i8", "varuint@i64", "skiptags", "genfile", "glevel", "gdiag", "reply", "seq(seq(u16))"]
     for tn in ALL_TYPES:
         cases.append((tn, "-", "exh0"))
         for a in range(256):
@@ -100,6 +100,18 @@ def run(ck):
                     cases.append(("seq(str)", hexs(b"\x04" + pre + bytes(c)), "string-bad-byte"))
                     cases.append(("dict(str,u8)", hexs(b"\x04" + pre + bytes(c) + b"\x07"), "string-bad-byte"))
         cases.append(("str", hexs(pre + body), "valid"))
+    # the same with text of two-, three- and four-byte characters before the bad byte, at every alignment (what is said about the error may quote the text before it)
+    for unit in ("é", "日", "😀"):
+        ub = unit.encode()
+        for off in range(4):
+            for reps in (3, 8, 11, 12, 16, 17, 20, 25, 31):
+                good = b"a" * off + ub * reps
+                for bad in (good + b"\xff", good + b"\xc3", good + ub[:-1], good[:len(good) // 2] + b"\x80" + good[len(good) // 2:], good + b"\xed\xa0\x80"):
+                    n = len(bad)
+                    pre = bytes([n << 2]) if n < 64 else bytes([((n << 2) | 1) & 0xff, (n << 2) >> 8])
+                    cases.append(("str", hexs(pre + bad), "string-bad-byte"))
+                    if reps in (11, 17):
+                        cases.append(("seq(str)", hexs(b"\x04" + pre + bad), "string-bad-byte"))
     # tagged-field skipping with every tag width, incl. 4- and 8-byte tags beyond the i32 range
     def varint(v, width):
         code = {1: 0, 2: 1, 4: 2, 8: 3}[width]
@@ -132,7 +144,7 @@ def run(ck):
         oo, cost = split_cost(oo)
         n = 0 if h == "-" else len(h) // 2
         ck.count("decode", line, kind=fam + ":" + (mo.split(" ")[0] if not mo.startswith("err") else mo))
-        t = parse_ty(tn) if tn in MENU else (("p", tn) if tn in ("varuint", "varint", "size", "f32", "f64", "varint32", "varuint32", "glevel") else None)
+        t = parse_ty(tn) if tn in MENU else (("p", tn) if tn in ("varuint", "varint", "size", "f32", "f64", "varint32", "varuint32", "glevel") or "@" in tn else None)
         if cost > worst[0]:
             worst = (cost, line)
         if oo.startswith("panic") or oo.startswith("crash"):
